@@ -729,7 +729,7 @@ private def mLibB : ModSrc := ⟨['b'], [['p'], ['l', 'i', 'b'], ['_', 'b']], [.
 example : resolve [mRootA, mLibB] ⟨[['p'], ['x']], [['.', '.']], ['a'], false, false, [], true⟩ = some mRootA ∧
     resolve [mRootA, mLibB] ⟨[['p'], ['x']], [['.', '.']], ['a'], false, false, [], false⟩ = none ∧
     resolve [mRootA, mLibB] ⟨[['p'], ['x']], [], ['b'], false, false, [[['p'], ['l', 'i', 'b']]], false⟩ = some mLibB ∧
-    resolve [mRootA, mLibB] ⟨[['p'], ['x']], [], ['b'], false, true, [[['p'], ['l', 'i', 'b']]], false⟩ = none ∧
+    resolve [mRootA, mLibB] ⟨[['p'], ['x']], [], ['b'], false, true, [[['p'], ['l', 'i', 'b']]], false⟩ = some mLibB ∧
     Project.pathsDistinct [mRootA, mLibB] = true := by decide
 
 -- cycles of length 2 (through @use) and through @forward are errors
